@@ -45,6 +45,8 @@ def run(ctx):
     else:
         ctx.finding("C02.R1", new, "ok-exit", "an Ok exit of SDJWTVerifier::new is reachable without the issuer-JWT signature check having succeeded")
     # unpacker call = value stored to verified_claims
+    # (a public constructor that `new` merely delegates to — `new(..) = new_with(.., DEFAULT)` — is judged as part of new's view)
+    spliced = set(n_ for n_ in new.inlined_names() if n_ in fx.fns and fx.fns[n_].raw.get("reachable_pub"))
     ws = common.struct_field_writes(fx, VSTRUCT, "verified_claims") or []
     unpack_calls = []
     for w in ws:
@@ -56,6 +58,10 @@ def run(ctx):
         ctx.missing("C02.R1", "unpacker", "no crate-local call whose result is stored in verified_claims")
     for (f, root) in unpack_calls:
         bb = root.d["bb"]
+        if f.name in spliced:
+            copies = [b_ for b_ in new.normal_blocks() if new.orig_key(b_) == (f.name, bb)]
+            if len(copies) == 1:
+                f, bb = new, copies[0]
         if f.name == new.name:
             if good and guarded(new, bb, good):
                 ctx.ok("C02.R1", new, "verify-before-unpack", "the claim-unpacking call %s is dominated by the signature check's success edge" % root.d["term"].get("resolved"), line=root.d["term"].get("line"))
@@ -138,6 +144,9 @@ def run(ctx):
     # judged in the canonical views of the functions that are subjects of their own (a private `set_token(jwt, ..)` helper is spliced into
     # both parsers and its writes are judged there, with each parser's arguments)
     r6_views = fx.subjects(sorted(A.reach))
+    # ..and the parsers are given the presented string itself (no normalisation in front of them); rule shared with C10.F2
+    import c10
+    c10.input_verbatim(common.RelabelCtx(ctx, "C02.R6"), fx, c10.parsers(fx), "C02.R6")
     tok_writes = [w for w in (common.struct_field_writes(fx, COMMON, "unverified_sd_jwt", fns=r6_views) or []) if not w["fn"].is_macro_generated() and w["how"] in ("assign", "calldest")]
     ctx.floor("C02.R6", "assignments of the token that is verified", len(tok_writes), 1)
     tokens = {}
